@@ -1,11 +1,12 @@
-CONSTANTS EmitCases = FALSE MaxQOps = 3
-  Dev_us = FALSE Dev_snf = FALSE Dev_a4 = FALSE Dev_afe = FALSE Dev_ord = FALSE Dev_np = FALSE Dev_keep = FALSE Dev_desc = FALSE
+CONSTANTS EmitCases = FALSE MaxQOps = 3 Full = TRUE
+  Dev_us = FALSE Dev_snf = FALSE Dev_a4 = FALSE Dev_afe = FALSE Dev_ca4 = FALSE Dev_ord = FALSE Dev_np = FALSE Dev_keep = FALSE Dev_desc = FALSE
 SPECIFICATION Spec
-INVARIANT ImplIsDocumented
 INVARIANT SyncAsyncAgree
+INVARIANT CacheIsTransparent
 INVARIANT EveryTargetResolved
 INVARIANT PreferencesRespected
 INVARIANT LowestOrderOnly
 INVARIANT OrderIsDocumented
+INVARIANT ImplIsDocumented
 INVARIANT Emit
 CHECK_DEADLOCK FALSE
